@@ -24,6 +24,22 @@ CHECKS = {
           "misuses on SIZE_MAX overflow, touches only in-bounds indices; that unpad succeeds iff the final block ends in 0x80 0*, reads only the final block, and inverts pad. "
           "The model is tied to the code by running both on the same op lines (lengths 0..300 x block sizes 1..130 and powers of two x capacities, exhaustive small final blocks)."),
     note=NOTE_COMMON + "hypothesis cap <= 2^56 stated in the theorem (DESIGN §4-O2)."),
+ "C15": dict(
+    category="proof", design_ref="DESIGN.md §3.15",
+    technique="Lean 4 theorems (character maps by 256-case kernel evaluation, encoder = RFC 4648 by induction on 3-byte groups, decode round-trip, capacity, strictness) + exhaustive short-text differential correspondence",
+    text=("bin2hex/hex2bin/bin2base64/base642bin are modelled as written (state machines, Pornin masks, accumulator arithmetic); Lean proves the character maps equal the RFC tables, "
+          "the encoders equal RFC 4648 / lower-case hex for every input, decode(encode x) = x for every variant and capacity, never more than the capacity is written, and the acceptance "
+          "characterisations. The model is tied to the code by running both on all byte strings 0..70, mutated encodings, and exhaustively on all texts up to 2 (quick) / 3 (thorough) "
+          "characters over the full byte alphabet x variants x ignore sets x end-pointer."),
+    note=NOTE_COMMON + "two genuine defects found through this property were repaired (known_findings.json, fix: commits)."),
+ "C03": dict(
+    category="proof", design_ref="DESIGN.md §3.3",
+    technique="Lean 4 theorems over a model parameterised by the block function (counter-word carry invariant, tail handling, offset law, IETF guard arithmetic) + differential correspondence against Spec ChaCha20/Salsa20 on every backend",
+    text=("The drivers around the block functions (ChaCha20 original/IETF/XChaCha20, Salsa20/2012/208, XSalsa20) are modelled as written: 32-bit counter words with carry, byte-wise Salsa counter, "
+          "partial last block, XOR forms, the IETF no-wrap guard in 64-bit arithmetic. Lean proves for every length and every initial counter that the output is message XOR the specification "
+          "keystream at offset 64*ic, including across the 2^32 carry and the 2^64 wrap, and that the IETF form refuses exactly the requests that would pass block 2^32. "
+          "Block functions themselves are tied to the executable RFC 8439 / Salsa20 specification by correspondence on every length 0..2304 and every backend reachable by CPU masks and build variants."),
+    note=NOTE_COMMON + "block/round functions are parameters of the theorems (translation-validated, not proved)."),
 }
 
 NOT_YET = {}
